@@ -31,6 +31,7 @@ func init() {
 			{ID: "C06.10", Desc: "the 304 write-back is skipped when the request or the 304 carries no-store", Run: ruleC06_10, MinSites: 1},
 			{ID: "C06.9", Desc: "storability depends on the request only through no-store", Run: func(c *Ctx) { ruleEvaluatorRequestDirectives(c, "C06.9") }, MinSites: 1},
 			{ID: "C06.11", Desc: "no-store is not hidden by a backslash outside a quoted-string", Run: func(c *Ctx) { ruleEscapeOnlyInQuotes(c, "C06.11") }, MinSites: 1},
+			{ID: "C06.12", Desc: "in the list splitter an escaped character is consumed before quotes and commas are interpreted (no-store behind ext=\"a\\\"b\")", Run: func(c *Ctx) { ruleC12_7(c); renameRule(c, "C12.7", "C06.12") }, MinSites: 1},
 		},
 	})
 }
